@@ -25,7 +25,7 @@ PROPS = {
  "C01": {
   "module": "Zog.Props.C01",
   "theorems": COMMON + [P + "C01." + t for t in ["prim_no_issue_sat", "complex_tests_hold", "success_means_every_visit_clean", "visits_only_append", "engine_success_iff", "tested_sat"]],
-  "streams": [eng(3000, 150000), eng(2000, 100000, "catch")],
+  "streams": [eng(2500, 150000), eng(2000, 100000, "catch"), eng(2500, 100000, "nearsuccess")],
   "trusted_base": ENGINE_TB, "assumptions": ENGINE_ASSUME,
  },
  "C02": {
